@@ -255,6 +255,36 @@ fn main() {
         });
     }
     let _ = gen::game_mode(0);
+    // fractional start times (x.4 / x.5 / x.6 / x.9 ms) with sliders of no or nearly no duration: converters round start and
+    // end separately
+    {
+        let alpha = vh::gen::Alphabet::product(&[Kind::Circle, Kind::SliderZeroRep, Kind::SliderTiny, Kind::Slider2], &[0, 150], &[PosK::Far], &[0, 4], &[0]);
+        let n_max = 2u32;
+        let per = alpha.count_upto(n_max);
+        let fracs = [4u8, 5, 6, 9];
+        let presets = [vh::gen::DiffPreset::D0, vh::gen::DiffPreset::D2];
+        let kms = key_mods(false);
+        ctx.universe("fractional-start-times/N<=2", per * (fracs.len() * presets.len()) as u64, |idx, l| {
+            let r = (idx / per) as usize;
+            let spec = vh::gen::MapSpec { frac_tenths: fracs[r % fracs.len()], diff: presets[r / fracs.len()], ..vh::gen::MapSpec::new(0, alpha.seq(idx % per, n_max)) };
+            let map = spec.decode();
+            l.states(1);
+            if !map.hit_objects.is_empty() {
+                l.nontrivial();
+            }
+            for (_, m) in &kms {
+                for target in 1..4u8 {
+                    let mode = vh::gen::game_mode(target);
+                    let Ok(conv) = map.clone().convert(mode, &m.build(mode)) else { continue };
+                    l.checked(1);
+                    if let Some(msg) = well_formed(&conv) {
+                        l.violation(&format!("{}_form", ["osu", "taiko", "catch", "mania"][target as usize]), || format!("target={mode:?} mods={m:?}: {msg}\nspec={}\n--- .osu ---\n{}", spec.describe(), spec.text()));
+                        return;
+                    }
+                }
+            }
+        });
+    }
     // the neighbourhood of a slider's end: a straight slider of 200..=300 px (1.4 to 2.1 beats) followed by a circle 1 to 40 ms
     // after its end, then another circle — converters cut sliders into hits with a tolerance at the end, the next object
     // may fall before the last emitted hit
